@@ -21,6 +21,9 @@ def configs(tier):
     for kind in ("trap:light:eq", "trap:eq"):
         out.append(dict(kind=kind, n=3, cfg=dict(CFG, nonnode=False), hidden=False, d=1, assertions=0, judge="c16", snap=True))
         out.append(dict(kind=kind, n=4, cfg=dict(CFG, nonnode=False, extras=False), hidden=False, d=0, assertions=0, judge="c16", snap=True))
+    # falsy / empty-container / tuple node classes: the hooks fire for them like for any node
+    for kind in ("trap:light:falsy", "trap:falsy", "trap:light:len0", "trap:tuple0", "trap:tuple2"):
+        out.append(dict(kind=kind, n=3, cfg=dict(CFG, nonnode=False), hidden=False, d=0, assertions=0, judge="c16", snap=True))
     # hooks put on the class only after nodes of it have been linked once
     for kind in ("late", "late:light", "insthook"):
         out.append(dict(kind=kind, n=3, cfg=dict(CFG), hidden=False, d=1, assertions=0, judge="c16", snap=True))
